@@ -159,6 +159,22 @@ def gen_lb(rng, tier='quick', rollover=0.3):
                 grid=g, steps=steps)
 
 
+def gen_lb_thin(rng, tier='quick', rollover=0.3):
+    """a boundary file on a grid that is one cell wide in x and/or y (nx or ny = 1)"""
+    c = gen_lb(rng, tier, rollover)
+    which = rng.choice(['nx', 'ny', 'both'])
+    if which in ('nx', 'both'):
+        c['nx'] = 1
+    if which in ('ny', 'both'):
+        c['ny'] = 1
+    for s in c['steps']:
+        for sp in c['names']:
+            for e, _ in EDGES:
+                ncell = c['ny'] if e in ('WEST', 'EAST') else c['nx']
+                s['data'][e + '_' + sp] = [[L.finite_word(rng) for _ in range(c['nz'])] for _ in range(ncell)]
+    return c
+
+
 def lb_records(c):
     g = c['grid']
     s0, sl = c['steps'][0], c['steps'][-1]
@@ -173,7 +189,8 @@ def lb_records(c):
     for e, ei in EDGES:
         nb = c['ny'] if e in ('WEST', 'EAST') else c['nx']
         icell = {'WEST': 2, 'SOUTH': 2, 'EAST': c['nx'] - 1, 'NORTH': c['ny'] - 1}[e]
-        out.append([1, ei, nb, 0, 0, 0, 0] + [icell, 0, 0, 0] * (nb - 2) + [0, 0, 0, 0])
+        # ione, iedge, ncell, (icell, idum, idum, idum) per boundary cell: exactly 4*ncell words (a 1-cell edge has one entry)
+        out.append([1, ei, nb] + ([0, 0, 0, 0] + [icell, 0, 0, 0] * (nb - 2) + [0, 0, 0, 0])[:4 * nb])
     for s in c['steps']:
         out.append([s['bdate'], fw(float(s['bhour'])), s['edate'], fw(float(s['ehour']))])
         for sp in c['names']:
@@ -204,7 +221,8 @@ def expected_view(c):  # noqa: F811
             k = e + '_' + sp
             data[k] = [s['data'][k] for s in c['steps']]
     tflag = [[(2000000 if s['bdate'] < 70000 else 1900000) + s['bdate'], s['bhour'] * 10000] for s in c['steps']]
-    return dict(dims=dims, data=data, TFLAG=tflag)
+    etflag = [[(2000000 if s['edate'] < 70000 else 1900000) + s['edate'], s['ehour'] * 10000] for s in c['steps']]
+    return dict(dims=dims, data=data, TFLAG=tflag, ETFLAG=etflag)
 
 
 _open_met = open_memmap
@@ -237,7 +255,7 @@ def observe(f, fmt):  # noqa: F811
     if fmt != 'lateral_boundary':
         return _observe_met(f, fmt)
     import numpy as np
-    o = dict(dims={k: len(v) for k, v in f.dimensions.items() if k in ('TSTEP', 'LAY', 'ROW', 'COL')})
+    o = dict(dims={k: len(v) for k, v in f.dimensions.items() if k in ('TSTEP', 'LAY', 'ROW', 'COL', 'VAR')})
     data = {}
     for v in f.variables.keys():
         if v in ('TFLAG', 'ETFLAG'):
@@ -250,6 +268,75 @@ def observe(f, fmt):  # noqa: F811
     if 'ETFLAG' in f.variables.keys():
         o['ETFLAG'] = np.asarray(f.variables['ETFLAG'][:, 0, :]).astype('int64').tolist()
     return o
+
+
+# ---- lateral boundary: the Coq-side content (Model/Lbdy.v `lbdy`), its literal, and the view the library presented
+def lb_flat(cells):
+    return [w for cell in cells for w in cell]
+
+
+def lb_struct(c):
+    """dict with the fields of Model.Lbdy.lbdy (all words); edges/steps as 4-lists in WEST, EAST, SOUTH, NORTH order"""
+    g = c['grid']
+    fw = L.f32_word
+    s0, sl = c['steps'][0], c['steps'][-1]
+    edges = []
+    for e, ei in EDGES:
+        nb = c['ny'] if e in ('WEST', 'EAST') else c['nx']
+        icell = {'WEST': 2, 'SOUTH': 2, 'EAST': c['nx'] - 1, 'NORTH': c['ny'] - 1}[e]
+        edges.append(([0, 0, 0, 0] + [icell, 0, 0, 0] * (nb - 2) + [0, 0, 0, 0])[:4 * nb])
+    return dict(name=L.char_words(c['name'], 10), note=L.char_words(c['note'], 60), itzon=c['itzon'],
+                dates=[s0['bdate'], fw(float(s0['bhour'])), sl['edate'], fw(float(sl['ehour']))],
+                gpre=[fw(g['plon']), fw(g['plat']), g['iutm'], fw(g['xorg']), fw(g['yorg']), fw(g['delx']), fw(g['dely'])],
+                nx=c['nx'], ny=c['ny'], nz=c['nz'],
+                gpost=[g['iproj'], g['istag'], fw(g['tlat1']), fw(g['tlat2']), fw(0.0)],
+                spc=[L.char_words(n, 10) for n in c['names']], edges=edges,
+                steps=[([s['bdate'], fw(float(s['bhour'])), s['edate'], fw(float(s['ehour']))],
+                        [[lb_flat(s['data'][e + '_' + sp]) for e, _ in EDGES] for sp in c['names']]) for s in c['steps']])
+
+
+def coq_quad(q):
+    return '(Quad %s %s %s %s)' % tuple(C.zlist(x) for x in q)
+
+
+def coq_lbdy(c):
+    u = lb_struct(c)
+    steps = '[' + '; '.join('(%s, [%s])' % (C.zlist(th), '; '.join(coq_quad(q) for q in qs)) for th, qs in u['steps']) + ']'
+    return ('{| l_name := %s; l_note := %s; l_itzon := %s; l_dates := %s; l_gpre := %s; l_nx := %d; l_ny := %d; l_nz := %d; '
+            'l_gpost := %s; l_spc := %s; l_edges := %s; l_steps := %s |}') % (
+        C.zlist(u['name']), C.zlist(u['note']), C.zc(u['itzon']), C.zlist(u['dates']), C.zlist(u['gpre']),
+        u['nx'], u['ny'], u['nz'], C.zlist(u['gpost']), C.zll(u['spc']), coq_quad(u['edges']), steps)
+
+
+def lb_expected_keys(names):
+    return [e + '_' + sp for sp in names for e, _ in EDGES]
+
+
+def coq_lview(c, view):
+    """Coq literals (lview, tflag, etflag) of what the library presented; view = observe(...) or None when it raised.
+    The time-header words are not exposed by the reader: lv_dates is rebuilt from the content for the steps presented
+    (F still pins them through TFLAG/ETFLAG)."""
+    if not view:
+        return ('{| lv_nspec := 0; lv_nx := 0; lv_ny := 0; lv_nz := 0; lv_ntimes := 0; lv_names := []; lv_dates := []; '
+                'lv_data := [] |}', '[]', '[]')
+    dm = view['dims']
+    keys = list(view['data'].keys())
+    spcs = [k[len('WEST_'):] for k in keys[0::4]]
+    nt = dm['TSTEP']
+    nrec = len(view['data'][keys[0]]) if keys else 0
+    data = []
+    for t in range(nrec):
+        data.append('[' + '; '.join(coq_quad([lb_flat(view['data'][e + '_' + sp][t]) for e, _ in EDGES]) for sp in spcs) + ']')
+    u = lb_struct(c)
+    dates = [u['steps'][t][0] for t in range(min(nrec, len(u['steps'])))]
+    v = ('{| lv_nspec := %d; lv_nx := %d; lv_ny := %d; lv_nz := %d; lv_ntimes := %d; lv_names := %s; lv_dates := %s; lv_data := %s |}' % (
+        dm.get('VAR', 0) // 4, dm['COL'], dm['ROW'], dm['LAY'], nt, C.zll([L.char_words(s, 10) for s in spcs]), C.zll(dates),
+        '[' + '; '.join(data) + ']'))
+    return v, coq_pairs(view.get('TFLAG', [])), coq_pairs(view.get('ETFLAG', []))
+
+
+def coq_pairs(ps):
+    return '[' + '; '.join('(%d, %d)' % (a, b) for a, b in ps) + ']'
 
 
 # ----------------------------------------------------------------------------- land use (static file, old style: 11 categories)
